@@ -222,7 +222,8 @@ class SymInt:
     __str__ = __repr__
 
     def __format__(self, spec):
-        return MARK
+        from .models import fmt_symint
+        return fmt_symint(self, spec)
 
     def __bool__(self):
         return cur().branch(self.t != 0)
@@ -499,6 +500,14 @@ class SymInt:
             if n > W:
                 raise Unsupported("bit_length")
         return n
+
+    def bit_count(self):
+        v = abs(self)
+        n = max(abs(self.lo), abs(self.hi)).bit_length()
+        r = 0
+        for i in range(n):
+            r = r + ((v >> i) & 1)
+        return r
 
     def to_bytes(self, length=1, byteorder="big", *, signed=False):
         from .sbytes import SymBytes
